@@ -51,7 +51,11 @@ def main():
         res[sid] = {"property": prop, "exit": rc, "violation": viol[:1], "detail": [l.strip() for l in out.splitlines() if l.startswith("  ")][:1]}
         print(sid, prop, "exit", rc, (viol or ["-"])[0][:110])
         if rc != 1:
-            missed.append(sid)
+            if meta.get("not_detected"):
+                print("   (known gap: %s)" % meta["not_detected"][:120])
+                res[sid]["known_gap"] = meta["not_detected"]
+            else:
+                missed.append(sid)
     with open(os.path.join(VERIF, "seeded", "SWEEP.json"), "w") as f:
         json.dump(res, f, indent=1, sort_keys=True)
     print("missed:", missed)
